@@ -21,7 +21,8 @@ CONSTANTS Fam,        \* which family: "F1" "F2" "NM" "HID" "F3" "CAT"
           Alphabet,   \* byte values
           Base,       \* base offset of the parsed file (1 = alone in its file set)
           NSlices, Slice,   \* explore the bodies whose index = Slice (mod NSlices)
-          MaxCalls, MaxDepth,   \* budget: a run that exceeds it is cut and not judged
+          MaxCalls, MaxDepth, MaxRes,   \* budget: a run that exceeds it is cut and not judged
+          NameAll,    \* TRUE: every Any/Choice of the family's grammars carries a Name (C06)
           DoExport    \* print the cases for the replay
 
 VARIABLES askq, cur, outs
@@ -46,7 +47,7 @@ AsksOf(b, ww) == LET nts == SetToSortSeq(b.nts, <)
 
 Init == \E bodies \in Chosen, ww \in Inputs :
           LET b == Build(bodies) IN
-          /\ InitWith(b.G, ww, Base, b.root)
+          /\ InitWith(IF NameAll THEN NameAllG(b.G) ELSE b.G, ww, Base, b.root)
           /\ askq = AsksOf(b, ww)
           /\ cur = <<b.root, Base>>
           /\ outs = <<>>
@@ -67,7 +68,10 @@ Idle == Fin /\ UNCHANGED mvars
 Next == MStep \/ NextAsk \/ Idle
 Spec == Init /\ [][Next]_mvars /\ WF_mvars(MStep \/ NextAsk)
 
-Budget == IF calls > MaxCalls \/ Len(stack) > MaxDepth THEN PrintT("CUT") /\ FALSE ELSE TRUE
+\* (explosively ambiguous or cyclic bodies produce result lists of hundreds of alternatives; breadth-first
+\* exploration advances all runs level by level, so a few such runs would dominate the wall time)
+Budget == IF calls > MaxCalls \/ Len(stack) > MaxDepth \/ (ret.t = "ret" /\ Len(ret.res) > MaxRes)
+          THEN PrintT("CUT") /\ FALSE ELSE TRUE
 
 \* ---- C01 ------------------------------------------------------------------
 EndsOfRes(res) == {res[i].e - B : i \in 1..Len(res)}
